@@ -34,7 +34,7 @@ type c11Params struct {
 }
 
 func c11Default() c11Params {
-	return c11Params{many: []string{"u3", "u1", "u2"}, selT: []string{"s", "n", "one", "many"}, relDataT: []string{"one", "many"}, inclPerm: []int{0, 1, 2}}
+	return c11Params{many: []string{"ab", "u1", "AB"}, selT: []string{"s", "n", "one", "many"}, relDataT: []string{"one", "many"}, inclPerm: []int{0, 1, 2}}
 }
 
 func c11Base(i int, p c11Params) *DocCase {
